@@ -60,6 +60,7 @@ func selfRefInvocation(who, service *Prin, resource string) (invocation.Invocati
 }
 
 type Batch struct {
+	DefaultOpts bool // build the server with NO validation options (library defaults); the world's context must be the defaults
 	SelfRef  bool // also send an invocation whose proof is a self-referential delegation (see selfRefInvocation)
 	ID       int
 	W        *World            // combined world: all tokens of all invocations, shared context
@@ -161,7 +162,16 @@ func (b *Batch) newServer(obs *BatchObs) (server.ServerView, error) {
 	w := b.W
 	dummy := &Obs{}
 	var opts []server.Option
-	if (b.ID/2+b.ID)%2 == 1 {
+	if c := w.Ctx; b.ID%5 == 2 && c.SelfIssued && len(c.Owners) == 0 && len(c.Revoked) == 0 && len(c.Resolvable) == 0 &&
+		len(c.KeyResolver) == 0 && c.ParserKind == "ed" {
+		b.DefaultOpts = true // the context is exactly the library's defaults: every fifth such batch runs on a server built without options
+	}
+	if b.DefaultOpts {
+		// the server as most services build it: NewServer(id, handlers...) and nothing else — every validation option
+		// at the library's default (self-issued only, nothing revoked, no proof resolver, did:key principals, no DID resolution);
+		// only set when the world's context IS those defaults
+		opts = append(opts, server.WithErrorHandler(func(err server.HandlerExecutionError[any]) {}))
+	} else if (b.ID/2+b.ID)%2 == 1 {
 		// every option given TWICE, a permissive / useless value first: the configured (last) one must be in force
 		opts = append(opts,
 			server.WithCanIssue(func(ucan.Capability[any], did.DID) bool { return true }),
@@ -170,14 +180,16 @@ func (b *Batch) newServer(obs *BatchObs) (server.ServerView, error) {
 			server.WithPrincipalResolver(validator.FailDIDKeyResolution),
 		)
 	}
-	opts = append(opts,
-		server.WithCanIssue(w.canIssue),
-		server.WithRevocationChecker(w.checker(dummy)),
-		server.WithProofResolver(w.resolver()),
-		server.WithPrincipalParser(w.parser(dummy)),
-		server.WithPrincipalResolver(w.keyResolver()),
-		server.WithErrorHandler(func(err server.HandlerExecutionError[any]) {}),
-	)
+	if !b.DefaultOpts {
+		opts = append(opts,
+			server.WithCanIssue(w.canIssue),
+			server.WithRevocationChecker(w.checker(dummy)),
+			server.WithProofResolver(w.resolver()),
+			server.WithPrincipalParser(w.parser(dummy)),
+			server.WithPrincipalResolver(w.keyResolver()),
+			server.WithErrorHandler(func(err server.HandlerExecutionError[any]) {}),
+		)
+	}
 	var r *rand.Rand
 	if b.Perturb != 0 {
 		r = rand.New(rand.NewSource(b.Perturb))
